@@ -135,11 +135,11 @@ class Ctx:
             hyps.append(extra)
         self.obligations.append(Obligation(f"{self.unit.uid}/{name}", "cover", hyps, None, dict(self.inputs)))
 
-    def adopt_engine_obligations(self, source="helper"):
+    def adopt_engine_obligations(self, source="helper", replay=None):
         """obligations generated inside the executor (loop invariants)"""
-        for o in self.ex.obligations:
+        for n, o in enumerate(self.ex.obligations):
             self.obligations.append(
-                Obligation(f"{self.unit.uid}/{o['name']}", o["kind"], o["hyps"], o["goal"], dict(self.inputs), None, [], source)
+                Obligation(f"{self.unit.uid}/{o['name']}#{n}", o["kind"], o["hyps"], o["goal"], dict(self.inputs), replay, [], source)
             )
         self.ex.obligations = []
 
